@@ -193,6 +193,30 @@ func extractSubs() {
 			return true
 		})
 	}
+	// the delivery goroutine exists before the handler can know the client: the
+	// `go` that starts it precedes the hand-over, so that cancel()'s wait for it
+	// (sub.wg) covers it from the moment the client can be cancelled or stopped
+	fwdFirst := false
+	if newSub != nil {
+		var goPos, sendPos token.Pos
+		nGo := 0
+		ast.Inspect(newSub.Body, func(n ast.Node) bool {
+			switch v := n.(type) {
+			case *ast.GoStmt:
+				nGo++
+				goPos = v.Pos()
+				return false
+			case *ast.SendStmt:
+				if src(v.Chan) == "m.newSubscriptions" && sendPos == token.NoPos {
+					sendPos = v.Pos()
+				}
+			}
+			return true
+		})
+		fwdFirst = nGo == 1 && sendPos != token.NoPos && goPos < sendPos
+	}
+	boolean("forwarderBeforeRegistration", fwdFirst, "NewSubscription starts its one goroutine (the forwarder) before it sends the subscription to the handler")
+
 	boolean("registersViaHandler", sendsToHandler, "NewSubscription hands the subscription to the handler goroutine: `m.newSubscriptions <- sub`")
 
 	// handleNewSubscription: backlog loop (calls notifySubscriber) strictly before the map insert
@@ -335,6 +359,7 @@ func extractSubs() {
 		return out
 	}
 	fwdSends, fwdOK := 0, true
+	var fwdQuits []string
 	seenSel := map[*ast.SelectStmt]bool{}
 	for _, body := range goBodies(newSub) {
 		ast.Inspect(body, func(n ast.Node) bool {
@@ -357,6 +382,25 @@ func extractSubs() {
 					}
 				}
 				if hasSend {
+					// the same select must also listen to both quit channels (the
+					// client's and the manager's): cancel() waits for this goroutine
+					for _, cl := range v.Body.List {
+						cc := cl.(*ast.CommClause)
+						var rx ast.Expr
+						switch c := cc.Comm.(type) {
+						case *ast.ExprStmt:
+							rx = c.X
+						case *ast.AssignStmt:
+							if len(c.Rhs) == 1 {
+								rx = c.Rhs[0]
+							}
+						}
+						if u, ok := rx.(*ast.UnaryExpr); ok && u.Op == token.ARROW {
+							if se, ok := u.X.(*ast.SelectorExpr); ok && se.Sel.Name == "quit" {
+								fwdQuits = append(fwdQuits, src(se.X))
+							}
+						}
+					}
 					seenSel[v] = true
 					fwdSends++
 					if hasDefault {
@@ -391,6 +435,8 @@ func extractSubs() {
 	}
 	boolean("forwardBlocking", fwdSends == 1 && fwdOK && bareSends == 0,
 		"the goroutine started by NewSubscription (inline literal or a same-file function/method it `go`es) has exactly one send into the client's channel, in a select without `default`")
+	nat("forwardSendQuitCases", len(fwdQuits), true, "number of `<-x.quit` cases in the select that holds the forwarder's send (the client's quit and the manager's)")
+
 	// every send into a client's channel, anywhere in the file, is that one
 	allSends := 0
 	if f != nil {
